@@ -70,7 +70,18 @@ class C02(StreamProp):
     level_text = 'read refines an independent declarative RFC 6455 decoder (theorem over all byte streams/schedules); model tied by differential streams incl. every rule violation'
     level_note = 'Trusted: Coq kernel, Protocol.v/Codec.v/Utf8.v, the RFC spec decoder in Coq (short, auditable), correspondence generators'
     def generate(self, tier, rng):
-        return reid(self.corpus() + self.gen_streams(tier, rng))
+        out = self.gen_streams(tier, rng)
+        k = 0
+        for role in 'sc':
+            alpha = gen_streams.single_frame_alphabet(role)
+            if tier == 'quick':
+                alpha = rng.sample(alpha, 160)
+            for fr in alpha:
+                for prefix in (b'', gen_e2.peer_frame(role, 1, b'he', fin=False), gen_e2.peer_frame(role, 2, b'ok')):
+                    for au in (False, True):
+                        data = prefix + fr + gen_e2.peer_frame(role, 1, b'tail')
+                        out.append(gen_streams.reader_case('a%d' % k, role, [data], 5, au=au)); k += 1
+        return reid(self.corpus() + out)
 
 class C05(StreamProp):
     id = 'C05'
@@ -111,6 +122,7 @@ class C05(StreamProp):
 
 class C06(StreamProp):
     id = 'C06'
+    impl_only_kinds = ('EP',)
     rule = ('(max_frame_size, max_message_size, read_buffer_size) over {0,1,2,5,125,126,1000}^2 x {0,64,4096} x fragment patterns with sizes limit-1/limit/limit+1, '
             'text with a split code point at the limit, announced lengths up to 2^64-1 with no payload; compared with the independent decoder with the same limits')
     level_text = 'frame/message bounds, capacity errors, reject-before-payload and reserve bound proved on the model for all limits and lengths < 2^64; physical heap use is a runtime fact (partial)'
@@ -135,17 +147,31 @@ class C06(StreamProp):
                     n = max(0, F + d)
                     pats.append([pf(2, b'f' * n)])
                     pats.append([pf(9, b'p' * min(n, 125))])
+                for d in (-1, 0, 1):
+                    n = max(0, M + d)
+                    pats.append([pf(1, b't' * n)])                                    # unfragmented text at the limit
+                    a, b_ = n // 3, n // 3
+                    c = n - a - b_
+                    pats.append([pf(2, b'x' * a, fin=False), pf(0, b'y' * b_, fin=False), pf(0, b'z' * c)])      # three non-empty fragments
+                    pats.append([pf(1, b'x' * a, fin=False), pf(0, b'y' * b_, fin=False), pf(9, b'p'), pf(0, b'z' * c, fin=False), pf(0, b'')])
                 euro = '€'.encode()
                 pats.append([pf(1, b'a' * max(0, M - 2) + euro[:1], fin=False), pf(0, euro[1:])])
                 for frames in pats:
                     data = b''.join(frames)
                     out.append(gen_streams.reader_case('l%d' % k, role, [data], len(frames) + 2, mms=M, mfs=F, rbs=rbs)); k += 1
+                # the same limits installed with set_config after construction (harness '@sc')
+                for frames in pats[:6]:
+                    line = gen_streams.reader_case('l%d' % k, role, [b''.join(frames)], len(frames) + 2, mms=M, mfs=F, rbs=rbs); k += 1
+                    f_ = line.split(' '); f_[8] += '@sc'; out.append(' '.join(f_))
                 # announced lengths with no payload
                 for n in (F + 1, 2**16, 2**20, 2**27, 2**32, 2**63 - 1, 2**63, 2**64 - 1):
                     hdr = bytes([0x82, (0x80 if role == 's' else 0) | 127]) + n.to_bytes(8, 'big') + (b'\x01\x02\x03\x04' if role == 's' else b'')
                     out.append(gen_streams.reader_case('l%d' % k, role, [hdr], 4, mms=M, mfs=F, rbs=rbs, end=None)); k += 1
-        return reid(out)
+        return reid(out) + ['EP ep0']
     def monitor(self, case_line, trace, mline):
+        if case_line.startswith('EP '):
+            bad = [x for x in trace.split(' ') if x.endswith('=BAD')]
+            return ('config-plumbing: ' + ','.join(bad) + ' does not carry the configured limits to the socket') if bad or not trace else None
         case, ots = self.parse(case_line, trace)
         v = compare_reader(case, ots)
         if v: return v
@@ -394,6 +420,30 @@ def c09_nohook_monitor(self, case_line, trace):
         if int(kv['masked']) != 0:
             return 'key-stats: server frames masked'
     return None
+def c09_source_pin():
+    """unpredictability cannot be tested: pin the source of the real mask generator (hook-off body) to rand::random()"""
+    import re, os
+    path = '/repo/src/protocol/frame/mask.rs'
+    try:
+        src = open(path).read()
+    except OSError:
+        return 'mask-source: cannot read ' + path
+    m = re.search(r'#\[cfg\(not\(tungstenite_verif\)\)\]\s*(?:#\[inline\]\s*)?pub fn generate_mask\(\) -> \[u8; 4\] \{(.*?)\n\}', src, re.S)
+    if not m:
+        return 'mask-source: the hook-off generate_mask() was not found in its pinned form'
+    body = re.sub(r'//[^\n]*', '', m.group(1)).strip()
+    if body != 'rand::random()':
+        return 'mask-source: generate_mask() is no longer `rand::random()` (body now: %s): unpredictability of the key is not shown' % body[:80].replace('\n', ' ')
+    return None
+
+_orig_c09_nohook_monitor = c09_nohook_monitor
+def c09_nohook_monitor2(self, case_line, trace):
+    v = _orig_c09_nohook_monitor(self, case_line, trace)
+    if v: return v
+    if case_line.split(' ')[1] == 'ks_c':
+        return c09_source_pin()
+    return None
+c09_nohook_monitor = c09_nohook_monitor2
 C09.nohook_cases = c09_nohook_cases
 C09.nohook_monitor = c09_nohook_monitor
 
@@ -424,8 +474,13 @@ class C10(E2Prop):
             ops += ['f', 'f', 'f', 'f']
             wr = [rng.choice(['a:1', 'a:2', 'a:3', 'a:50', 'a:100000', 'e:wb', 'e:wb', 'e:intr']) for _ in range(rng.randint(0, 8))]
             if rng.random() < 0.1: wr.append(rng.choice(['a:0', 'e:other', 'e:reset']))
-            fl = [rng.choice(['ok', 'e:wb']) for _ in range(rng.randint(0, 3))]
+            fl = [rng.choice(['ok', 'e:wb', 'e:intr', 'e:timedout', 'ok']) for _ in range(rng.randint(0, 3))]
             out.append(ws.scase_line('q%d' % k, role, ops, [], wr, fl, wbs=rng.choice([0, 1, 10, 600]), seed=rng.randint(0, 2**32 - 1))); k += 1
+        # payloads above every size gate one could think of (256 KiB, 1 MiB): blocked / partial first write
+        for role in 'sc':
+            for n_ in ((2**18, 2**18 + 1) if tier == 'quick' else (2**18, 2**18 + 1, 2**20, 2**20 + 7)):
+                for wr in (['e:wb'], ['a:10', 'e:wb'], []):
+                    out.append(ws.scase_line('g%d' % k, role, ['wb:' + ws.hx(bytes((i * 13) & 255 for i in range(n_))), 'f', 'f', 'wt:6869', 'f'], [], wr, [], wbs=rng.choice([0, 131072]))); k += 1
         for i in range(300 if tier == 'quick' else 4000):
             role = 'cs'[i % 2]
             sizes = [rng.choice([0, 1, 5, 20]) for _ in range(rng.randint(2, 6))]
@@ -454,13 +509,13 @@ class C10(E2Prop):
 
 class C11(E2Prop):
     id = 'C11'
-    rule = ('ping sequences (payload 0,1,2,125; 1-4 pings, several per segment) interleaved with data and user pongs x all read/write/flush patterns up to length 5 (sampled in quick) x WouldBlock on any write or flush, both roles, unlimited buffer')
+    rule = ('ping sequences (payloads 0, 2, 3, 124, 125 bytes; 1-4 pings, several per segment) interleaved with data and user pongs x all read/write/flush patterns up to length 5 (sampled in quick) x WouldBlock on any write or flush, both roles, unlimited buffer')
     level_text = 'pong pending-until-sent invariant, order/no-invention, sent by the next successful call, WouldBlock postpones (theorems over all histories)'
     level_note = 'Trusted: Coq kernel, Protocol.v, correspondence'
     def generate(self, tier, rng):
         out = []; k = 0
         uops = ['r', 'wt:6869', 'wpo:71', 'f']
-        ptoks = ['PI', 'PI0', 'PI2', 'PIT', 'T', 'WB']
+        ptoks = ['PI', 'PI0', 'PI2', 'PIT', 'PI125', 'PI124', 'PI3', 'T', 'WB']
         for L in (2, 3, 4):
             allc = []
             for role in 'sc':
@@ -560,6 +615,7 @@ class C12(E2Prop):
 
 class C14(E2Prop):
     id = 'C14'
+    impl_only_kinds = ('EP',)
     rule = ('(write_buffer_size, max_write_buffer_size) over {0,1,2,9,10,11,12,20,600}^2 with max > wbs x message sizes 0..=12 x refusal windows x ping floods while blocked; '
             'WriteBufferFull decisions recomputed independently from sizes and accepted bytes')
     level_text = 'invariant |out_buffer| <= max (+ one pending control frame), WriteBufferFull hands the frame back and queues nothing, retry succeeds with room, batching threshold and eager mode (theorems)'
@@ -600,6 +656,12 @@ class C14(E2Prop):
                         ops.insert(pos, 'sb:0:%s' % ('inf' if m1 is None else m1))
                         ops += ['f', 'wb:00010203', 'f']
                         out.append(gen_e2.history('s%d' % k, role, ops, [], wpat, 'ok', 0, m0)); k += 1
+        # set_config changing write_buffer_size at run time: batching must follow the new threshold
+        for role in 'sc':
+            for w0, w1 in ((0, 50), (50, 0), (10, 100), (100, 10)):
+                ops = ['wt:6161', 'sb:%d:inf' % w1, 'wt:6262', 'wt:6363', 'wb:' + ws.hx(bytes(range(60))), 'f', 'wt:6464', 'f']
+                for wpat in ('accept', 'wb2'):
+                    out.append(gen_e2.history('w%d' % k, role, ops, [], wpat, 'ok', w0, None)); k += 1
         # batching after the connection went through automatic replies under a blocked transport
         for role in 'sc':
             for wbs in (10, 100, 600):
@@ -608,8 +670,11 @@ class C14(E2Prop):
                         for pre in (['r'], ['r', 'r'], ['r', 'f'], ['r', 'wt:6869'], []):
                             ops = pre + ['f', 'f', 'f', 'wt:61', 'wt:62', 'wb:00', 'f', 'wt:63']
                             out.append(gen_e2.history('q%d' % k, role, ops, ['PI'] * sum(1 for o in pre if o == 'r'), wpat, fpat, wbs, None)); k += 1
-        return reid(self.corpus() + out)
+        return reid(self.corpus() + out) + ['EP ep0']
     def monitor(self, case_line, trace, mline):
+        if case_line.startswith('EP '):
+            bad = [x for x in trace.split(' ') if x.endswith('=BAD')]
+            return ('config-plumbing: ' + ','.join(bad)) if bad or not trace else None
         case, ots = self.parse(case_line, trace)
         v = monitors.mon_c14(case, ots)
         if v: return v
